@@ -27,8 +27,8 @@ RULE = ('family = one generated pipeline (single- and multi-input stages: map, s
 PROBES = ['original_iterated_after_wrapper', 'failed_fetch_counted', 'multi_input_stage_wrapped', 'behind_thread_prefetch',
           'items_stage_inside', 'partial_iteration', 'indexing_through_wrapper']
 BUDGET = {
-    'quick': {'families': 900, 'wall_cap': 240, 'shrink_s': 12},
-    'thorough': {'families': 40000, 'wall_cap': 3000, 'shrink_s': 30},
+    'quick': {'families': 8000, 'wall_cap': 420, 'shrink_s': 12},
+    'thorough': {'families': 80000, 'wall_cap': 5400, 'shrink_s': 30},
 }
 COMPONENTS = {
     'real': ['lazy_dataset.core.ProfilingDataset (constructor rewiring, __iter__, __getitem__, copy) '
@@ -317,10 +317,15 @@ def run(case):
                 ctxD = W.set_ctx(W.Ctx(faults=case['faults']))
                 d_orig = W.build(desc)
                 d_copy = d_orig.copy()
-                observe(d_copy, case, ctxD, use_sim)
+                obs_dc, _f = observe(d_copy, case, ctxD, use_sim)
                 obs_d, fd = observe(d_orig, full, ctxD, use_sim)
-                same_after = (obs_o == obs_d, obs_o, obs_d)
-                probes['original_iterated_after_wrapper'] = 1
+                # behind a thread prefetch an iteration that ends early has
+                # drawn a schedule dependent amount from the generators
+                settled = not use_sim or all(
+                    ep[0] == 'exhausted' for o_ in (obsB, obs_dc) for ep in o_['epochs'])
+                if settled:
+                    same_after = (obs_o == obs_d, obs_o, obs_d)
+                    probes['original_iterated_after_wrapper'] = 1
             # 3. reference counter
             ctxC = W.set_ctx(W.Ctx(faults=case['faults']))
             ref = RefProfile(W.build(desc))
